@@ -605,6 +605,265 @@ fn suite_meta_apply(out: &mut Out, tier: &str, rng: &mut Rng) {
     }
 }
 
+// ------------------------------------------------------------------ parser (C09)
+fn chars_field(s: &str) -> String {
+    // each character with what std says about it: code:flags:digit (flags: 1 alphabetic, 2 alphanumeric, 4 whitespace)
+    let mut out = String::new();
+    for (k, c) in s.chars().enumerate() {
+        if k > 0 {
+            out.push(' ');
+        }
+        let flags = (c.is_alphabetic() as u32) | ((c.is_alphanumeric() as u32) << 1) | ((c.is_whitespace() as u32) << 2);
+        let d = c.to_digit(16).map(|d| d as i64).unwrap_or(-1);
+        out.push_str(&format!("{}:{}:{}", c as u32, flags, d));
+    }
+    out
+}
+fn parse_result(r: Result<Result<Term, parser::ParseError>, String>) -> String {
+    match r {
+        Ok(Ok(t)) => format!("ok {}", ser(&t)),
+        Ok(Err(parser::ParseError::InvalidCharacter((i, c)))) => format!("err IC {} {}", i, c as u32),
+        Ok(Err(parser::ParseError::InvalidExpression)) => "err IE".into(),
+        Ok(Err(parser::ParseError::EmptyExpression)) => "err EE".into(),
+        Err(p) => format!("panic {}", p.replace(['\t', '\n'], " ")),
+    }
+}
+fn parse_line(out: &mut Out, s: &str, classic: bool) -> String {
+    begin(format!("parse {} {:?}", if classic { "Classic" } else { "DeBruijn" }, s));
+    let r = guarded(|| parse(s, if classic { Classic } else { DeBruijn }));
+    let res = parse_result(r);
+    out.line(format!("parse\t{}\t{}\t{}", if classic { "C" } else { "D" }, chars_field(s), res));
+    res
+}
+/// render a token sequence; `style` 0: compact (separators only where needed), 1..: random glyphs / whitespace
+fn render(tokens: &[&str], rng: &mut Rng, style: u32) -> String {
+    let mut s = String::new();
+    let ws = [" ", "  ", "\t", "\n", " \u{a0}", "\u{3000}"];
+    for (k, t) in tokens.iter().enumerate() {
+        let mut piece = t.to_string();
+        if style > 0 && piece.starts_with('λ') && rng.chance(1, 2) {
+            piece = piece.replacen('λ', "\\", 1);
+        }
+        if k > 0 {
+            let prev = tokens[k - 1];
+            let prev_name = prev.chars().last().map(|c| c.is_alphanumeric()).unwrap_or(false) && !prev.starts_with('λ');
+            let cur_start = piece.chars().next().unwrap();
+            // a separator is needed between a name and a following name or 'λ' glyph (which is alphabetic)
+            let need = prev_name && cur_start.is_alphanumeric() && !tokens[k].chars().all(|c| c.is_ascii_hexdigit() && tokens[0].len() == usize::MAX);
+            if need {
+                s.push_str(if style == 0 { " " } else { ws[rng.below(ws.len() as u64) as usize] });
+            } else if style > 0 && rng.chance(1, 3) {
+                s.push_str(ws[rng.below(ws.len() as u64) as usize]);
+            }
+        }
+        s.push_str(&piece);
+    }
+    if style > 0 && rng.chance(1, 4) {
+        s.push(' ');
+    }
+    s
+}
+fn render_dbr(tokens: &[&str], rng: &mut Rng, style: u32) -> String {
+    let mut s = String::new();
+    let ws = [" ", "  ", "\t", "\n", "\u{2003}"];
+    for t in tokens.iter() {
+        if style > 0 && rng.chance(1, 3) {
+            s.push_str(ws[rng.below(ws.len() as u64) as usize]);
+        }
+        if style > 0 && *t == "λ" && rng.chance(1, 2) {
+            s.push('\\');
+        } else if style > 0 && t.len() == 1 && t.chars().all(|c| c.is_ascii_alphabetic()) && rng.chance(1, 2) {
+            s.push_str(&t.to_lowercase());
+        } else {
+            s.push_str(t);
+        }
+    }
+    s
+}
+fn all_sequences(alphabet: &[&'static str], maxlen: usize) -> Vec<Vec<&'static str>> {
+    let mut out: Vec<Vec<&'static str>> = vec![vec![]];
+    let mut frontier: Vec<Vec<&'static str>> = vec![vec![]];
+    for _ in 0..maxlen {
+        let mut next = Vec::new();
+        for seq in &frontier {
+            for a in alphabet {
+                let mut n = seq.clone();
+                n.push(*a);
+                next.push(n);
+            }
+        }
+        out.extend(next.iter().cloned());
+        frontier = next;
+    }
+    out
+}
+fn suite_parse(out: &mut Out, tier: &str, rng: &mut Rng) {
+    let thorough = tier == "thorough";
+    // exhaustive token sequences, De Bruijn
+    for seq in all_sequences(&["λ", "(", ")", "1", "2", "3"], if thorough { 7 } else { 5 }) {
+        let compact = render_dbr(&seq, rng, 0);
+        let r0 = parse_line(out, &compact, false);
+        let varied = render_dbr(&seq, rng, 1);
+        if varied != compact {
+            let r1 = parse_line(out, &varied, false);
+            // whitespace and the choice of glyph never change the result
+            out.line(format!("same\tD\t{}\t{}\t{}\t{}", chars_field(&compact), chars_field(&varied), r0, r1));
+        }
+        if r0.starts_with("ok") {
+            let wrapped = format!("(({}))", compact);
+            let r2 = parse_line(out, &wrapped, false);
+            out.line(format!("same\tD\t{}\t{}\t{}\t{}", chars_field(&compact), chars_field(&wrapped), r0, r2));
+        }
+    }
+    // exhaustive token sequences, Classic
+    for seq in all_sequences(&["λa.", "λb.", "(", ")", "a", "b", "c"], if thorough { 6 } else { 4 }) {
+        let compact = render(&seq, rng, 0);
+        let r0 = parse_line(out, &compact, true);
+        let varied = render(&seq, rng, 1);
+        if varied != compact {
+            let r1 = parse_line(out, &varied, true);
+            out.line(format!("same\tC\t{}\t{}\t{}\t{}", chars_field(&compact), chars_field(&varied), r0, r1));
+        }
+        if r0.starts_with("ok") {
+            let wrapped = format!("( ({}))", compact);
+            let r2 = parse_line(out, &wrapped, true);
+            out.line(format!("same\tC\t{}\t{}\t{}\t{}", chars_field(&compact), chars_field(&wrapped), r0, r2));
+        }
+    }
+    // longer well-formed inputs from random terms, and mutations of them
+    let n = if thorough { 20000 } else { 2500 };
+    for k in 0..n {
+        let b = 3 + rng.below(30) as usize;
+        let free = rng.below(3) as usize;
+        let t = random_term(rng, b, 0, free, false);
+        let classic = k % 2 == 0;
+        let mut s: Vec<char> = if classic { format!("{}", t) } else { format!("{:?}", t) }.chars().collect();
+        if k % 4 >= 2 && !s.is_empty() {
+            // mutate: drop / duplicate / swap / insert
+            let pos = rng.below(s.len() as u64) as usize;
+            match rng.below(4) {
+                0 => {
+                    s.remove(pos);
+                }
+                1 => {
+                    let c = s[pos];
+                    s.insert(pos, c);
+                }
+                2 => {
+                    let q = rng.below(s.len() as u64) as usize;
+                    s.swap(pos, q);
+                }
+                _ => {
+                    let ins = ['(', ')', 'λ', '\\', '.', ' ', 'x', '1', 'F', '0', 'g', '+', '_', 'é', 'ℵ'];
+                    s.insert(pos, ins[rng.below(ins.len() as u64) as usize]);
+                }
+            }
+        }
+        let s: String = s.into_iter().collect();
+        parse_line(out, &s, classic);
+    }
+    // arbitrary character strings: no panic, InvalidCharacter for characters that cannot start a token
+    let pool: Vec<char> = "λ\\().. \t\n\u{a0}\u{2003}\u{3000}0123456789abcdefABCDEFgGxyzZ_+-*/'\"<>[]{}!?@#$%^&=|~`,;:éßƒℵαβωЖя中文字😀\u{301}\u{200b}\u{feff}²½٣".chars().collect();
+    for _ in 0..(if thorough { 40000 } else { 5000 }) {
+        let len = rng.below(9) as usize;
+        let mut s = String::new();
+        for _ in 0..len {
+            if rng.chance(1, 12) {
+                // any scalar value
+                loop {
+                    if let Some(c) = char::from_u32(rng.below(0x110000) as u32) {
+                        s.push(c);
+                        break;
+                    }
+                }
+            } else {
+                s.push(pool[rng.below(pool.len() as u64) as usize]);
+            }
+        }
+        parse_line(out, &s, rng.chance(1, 2));
+    }
+    // deep nesting (native stack): reported, not claimed
+    for depth in [1000usize, 20000] {
+        let s = format!("{}1{}", "(".repeat(depth), ")".repeat(depth));
+        begin(format!("parse-deep {}", depth));
+        let r = guarded(|| parse(&s, DeBruijn));
+        out.line(format!("deep\t{}\t{}", depth, matches!(r, Ok(Ok(Var(1))))));
+    }
+}
+
+// ------------------------------------------------------------------ printers (C10, C11)
+fn suite_print(out: &mut Out, tier: &str, rng: &mut Rng) {
+    let thorough = tier == "thorough";
+    let glyph = term::LAMBDA as u32;
+    let mut terms = universe(tier, 6, 7, 4);
+    terms.extend(randoms(rng, if thorough { 20000 } else { 2500 }, 40, true));
+    // deep binders: names with 2 and 3 letters, free variables far above them
+    for d in [25usize, 26, 27, 28, 52, 701, 702, 703, 704, 730] {
+        let mut t = app(app(Var(1), Var(d)), app(Var(d + 1), Var(d + 3)));
+        if d % 2 == 0 {
+            t = app(t, abs(app(Var(1), Var(d + 2))));
+        }
+        for _ in 0..d {
+            t = abs(t);
+        }
+        terms.push(t);
+    }
+    for i in [26usize, 27, 28, 676, 702, 703, 800, 18278, 18279] {
+        terms.push(app(Var(i), abs(app(Var(1), Var(i + 1)))));
+    }
+    for t in &terms {
+        begin(format!("display {}", ser(t)));
+        match guarded(|| format!("{}", t)) {
+            Ok(s) => {
+                let r = parse_result(guarded(|| parse(&s, Classic)));
+                out.line(format!("display\t{}\t{}\t{}\t{}", glyph, ser(t), chars_field(&s), r));
+            }
+            Err(p) => out.line(format!("display\t{}\t{}\tpanic\t{}", glyph, ser(t), p.replace(['\t', '\n'], " "))),
+        }
+    }
+    // huge indices (machine integers): the parse of the printed string does not depend on how far
+    // away the free variables are, only on their order of first appearance
+    for (k, t) in terms.iter().enumerate() {
+        if k % 3 != 0 || has_ud(t) {
+            continue;
+        }
+        for &bb in BS.iter() {
+            let big = shift_free(t, bb, 0);
+            begin(format!("display-shift {}", ser(t)));
+            let r = match guarded(|| format!("{}", big)) {
+                Ok(s) => parse_result(guarded(|| parse(&s, Classic))),
+                Err(p) => format!("panic {}", p.replace(['\t', '\n'], " ")),
+            };
+            out.line(format!("display-shift\t{}\t{}\t{}", bb, ser(t), r));
+        }
+    }
+    // Debug: indices 1..=15 for the round trip (others are printed too, format only)
+    let mut dterms = universe(tier, 5, 6, 3);
+    for _ in 0..(if thorough { 30000 } else { 4000 }) {
+        // random terms using all 15 digits, nested operand applications, abstractions in operator position
+        let b = 2 + rng.below(35) as usize;
+        let dd = rng.below(6) as usize;
+        let t = random_term(rng, b, dd, 9, false);
+        dterms.push(t);
+    }
+    for k in 0..16usize {
+        dterms.push(app(abs(Var(k)), app(Var(15 - k.min(15)), app(abs(abs(Var(k))), Var(k + 1)))));
+    }
+    dterms.push(Var(16));
+    dterms.push(Var(255));
+    dterms.push(app(Var(4096), Var(10)));
+    for t in &dterms {
+        begin(format!("debug {}", ser(t)));
+        match guarded(|| format!("{:?}", t)) {
+            Ok(s) => {
+                let r = parse_result(guarded(|| parse(&s, DeBruijn)));
+                out.line(format!("debug\t{}\t{}\t{}\t{}", glyph, ser(t), chars_field(&s), r));
+            }
+            Err(p) => out.line(format!("debug\t{}\t{}\tpanic\t{}", glyph, ser(t), p.replace(['\t', '\n'], " "))),
+        }
+    }
+}
+
 fn main() {
     let args: Vec<String> = std::env::args().collect();
     let suite = args.get(1).cloned().unwrap_or_default();
@@ -643,6 +902,8 @@ fn main() {
                 "history" => suite_history(&mut out, &tier, &mut rng),
                 "normalise" => suite_normalise(&mut out, &tier, &mut rng),
                 "termops" => suite_termops(&mut out, &tier, &mut rng),
+                "parse" => suite_parse(&mut out, &tier, &mut rng),
+                "print" => suite_print(&mut out, &tier, &mut rng),
                 "meta-reduce" => suite_meta_reduce(&mut out, &tier, &mut rng),
                 "meta-apply" => suite_meta_apply(&mut out, &tier, &mut rng),
                 _ => {
